@@ -81,7 +81,7 @@ Outcome body(const Case &c) {
     for (auto &kv : M[f]) { auto it = got.find(kv.first); if (it == got.end()) return Outcome::fail("iterate:keys", "missing " + kv.first.substr(0, 40) + at); if (it->second != kv.second) return Outcome::fail("iterate:value", "value of " + kv.first.substr(0, 40) + " len " + str(it->second.size()) + " model len " + str(kv.second.size()) + at); }
     return Outcome();
   };
-  int placements_seen = 0; bool replaced_across = false; int errors = 0; int step = 0;
+  int placements_seen = 0; bool replaced_across = false; bool shared_block = false; int errors = 0; int step = 0;
   auto placement_of = [&](int f, const std::string &name) -> int {  // 1 in-inode, 2 block, 3 ea_inode  (from the library's own handle; used only for the non-triviality rule)
     (void)f; (void)name; return 0; };
   (void)placement_of;
@@ -145,6 +145,36 @@ Outcome body(const Case &c) {
       r = openfs(); if (r) return Outcome::fail("fs-reopen", "error " + str(r) + at);
       for (int i = 0; i < 3; i++) { Outcome o = compare_all(i, at + " (after fs reopen)"); if (!o.ok) { o.tag = "fs-reopen:" + o.tag; return o; } }
       count("op:reopen-fs"); break; }
+    case 6: {  // make a second inode share f's extended attribute block (what the kernel's xattr block cache does for identical blocks): later changes of either inode must copy the block first
+      int g = (f + 1 + (int)((op[3] < 0 ? -op[3] : op[3]) % 2)) % 3;
+      bool big = false; for (auto &kv : M[f]) if ((long)kv.second.size() > bs - 256) big = true;   // values that may live in an EA inode: its blocks are charged per referencing inode, not modelled here
+      if (!M[g].empty() || big) break;
+      struct ext2_inode_large src, dst; memset(&src, 0, sizeof src); memset(&dst, 0, sizeof dst);
+      close_h(f); close_h(g);
+      if (ext2fs_read_inode_full(S.fs, ino[f], (struct ext2_inode *)&src, sizeof src) || ext2fs_read_inode_full(S.fs, ino[g], (struct ext2_inode *)&dst, sizeof dst)) break;
+      blk64_t xb = ext2fs_file_acl_block(S.fs, (struct ext2_inode *)&src);
+      if (!xb || ext2fs_file_acl_block(S.fs, (struct ext2_inode *)&dst)) break;
+      {  // a block with a value kept in an EA inode is not shared here (the EA inode's blocks are charged to every referencing inode, which this harness does not model)
+        std::vector<char> xbuf(bs); if (ext2fs_read_ext_attr3(S.fs, xb, xbuf.data(), ino[f])) break;
+        bool ea_inode_ref = false; size_t o = sizeof(struct ext2_ext_attr_header);
+        while (o + sizeof(struct ext2_ext_attr_entry) <= (size_t)bs) {
+          struct ext2_ext_attr_entry *en = (struct ext2_ext_attr_entry *)(xbuf.data() + o);
+          if (*(__u32 *)en == 0) break;
+          if (en->e_value_inum) ea_inode_ref = true;
+          o += (sizeof(struct ext2_ext_attr_entry) + en->e_name_len + 3) & ~3UL;
+        }
+        if (ea_inode_ref) break;
+      }
+      __u32 newcount = 0; errcode_t r = ext2fs_adjust_ea_refcount3(S.fs, xb, nullptr, 1, &newcount, ino[f]);
+      if (r) break;
+      ext2fs_file_acl_block_set(S.fs, (struct ext2_inode *)&dst, xb); ext2fs_iblk_add_blocks(S.fs, (struct ext2_inode *)&dst, 1);
+      r = ext2fs_write_inode_full(S.fs, ino[g], (struct ext2_inode *)&dst, sizeof dst); if (r) return Outcome::fail("harness", "share: write inode " + str(r));
+      // baseline of the second inode = what the library reads now; every pair must come from f's model
+      r = get_h(g); if (r) return Outcome::fail("xattrs_read", "error " + str(r) + at + " (after sharing the block)");
+      KV got; r = ext2fs_xattrs_iterate(S.h[g], iter_cb, &got); if (r) return Outcome::fail("iterate", "error " + str(r) + at);
+      got.erase("system.data");
+      for (auto &kv : got) { auto it = M[f].find(kv.first); if (it == M[f].end() || it->second != kv.second) return Outcome::fail("share:baseline", "shared block shows " + kv.first.substr(0, 40) + " which the owner does not have" + at); }
+      M[g] = got; shared_block = true; count("op:share-xattr-block(refcount " + str(newcount) + ")"); break; }
     default: break;
     }
   }
@@ -168,7 +198,7 @@ Outcome body(const Case &c) {
       if (p) { char b[512]; while (fgets(b, sizeof b, p)) vout += b; int st = pclose(p);
         if (st != 0) { std::string first = vout.substr(0, vout.find('\n')); std::string cls; for (char ch : first) { if (isdigit((unsigned char)ch) || (ch >= 'a' && ch <= 'f' && !cls.empty() && cls.back() == '#')) { if (cls.empty() || cls.back() != '#') cls += '#'; } else cls += ch; }
           return Outcome::fail("format:" + cls.substr(0, 60), "independent xattr verification failed:\n" + vout); } } } }
-  Outcome o; o.nontrivial = placements_seen >= 2 || replaced_across; return o;
+  Outcome o; o.nontrivial = placements_seen >= 2 || replaced_across || shared_block; return o;
 }
 rc::Gen<Case> genCase() {
   using namespace rc;
@@ -177,7 +207,7 @@ rc::Gen<Case> genCase() {
     int nops = *range<int>(2, 40);
     int nnames = *range<int>(1, 12);
     for (int i = 0; i < nops; i++) {
-      int k = *gen::weightedElement<int>({{14, 0}, {5, 1}, {4, 2}, {2, 3}, {2, 4}, {1, 5}});
+      int k = *gen::weightedElement<int>({{14, 0}, {5, 1}, {4, 2}, {2, 3}, {2, 4}, {1, 5}, {2, 6}});
       c.ops.push_back({k, *gen::weightedElement<i64>({{3, 0}, {1, 1}, {2, 2}}), *range<i64>(0, nnames), *range<i64>(0, 1 << 16), *range<i64>(0, 1 << 20)});
     }
     return c;
